@@ -234,6 +234,9 @@ func (e *Exec) decide(st *State, cond *Term) bool {
 	}
 	rt := e.feasible(st, cond)
 	rf := e.feasible(st, e.c.Not(cond))
+	if os.Getenv("GOSMT_DEBUG") != "" {
+		fmt.Fprintf(os.Stderr, "decide %s at %s: true:%v false:%v\n  pc=%v\n", cond, e.posStr(), rt, rf, st.pc)
+	}
 	if rt == Unknown || rf == Unknown {
 		st.imprecise = true
 		e.res.note("feasibility unknown at " + e.posStr())
